@@ -353,7 +353,13 @@ def gen_injected(rng, counter):
             reqs += rng.sample(again, min(len(again), 2)) + others(rng.randint(0, 2))
             if kind.startswith("cycle") and rng.random() < 0.5:
                 reqs += [gen_calc_request(rng, sys, f, year)]
-        out.append({"sys": sys, "pop": pop, "cfg": {"trace": rng.random() < 0.5}, "requests": reqs,
+        cfg = {"trace": rng.random() < 0.5}
+        if rng.random() < 0.35:
+            # non-default storage: everything on disk but the priority variables; some variables never stored
+            nvs = len(sys["vars"])
+            cfg.update({"disk": rng.random() < 0.75, "priority": [i for i in range(nvs) if rng.random() < 0.25],
+                        "drop": [i for i in range(nvs) if rng.random() < 0.15]})
+        out.append({"sys": sys, "pop": pop, "cfg": cfg, "requests": reqs,
                     "mode": "full", "inject": {"var": f, "kind": kind, "where": where, "target": target},
                     "fixvals": [rng.randint(-9, 30) for _ in range(6)]})
     return out
@@ -528,6 +534,47 @@ def gen_float(rng):
             "inject": {"var": 1, "kind": "float-special-values", "where": None, "target": None}, "fixvals": []}
 
 
+def gen_checked(rng):
+    """The cause of the failure is an input VALUE: a formula refuses (raises on) a negative input it has just read.
+    The input is overwritten with set_input (only after a request that failed, at the period at which it was read),
+    and the request repeated; under memory / disk / priority / drop configurations, with tracing, and on a clone.
+    Only variable 3 reads the checked input directly, so nothing computed can depend on the refused value.
+    Oracle only (the model has no data-dependent failure)."""
+    fvar = lambda fx: {"ent": "person", "type": "float", "unit": "month", "fx": fx}  # noqa: E731
+    vs = [fvar(None), fvar(None), fvar(None),
+          fvar(["mul", ["check", ["in", 0]], ["num", 2]]),              # 3 checked: raises when input 0 is negative
+          fvar(["add", ["in", 2], ["num", 100]]),                       # 4 other
+          fvar(["add", ["in", 4], ["in", 3]]),                          # 5 total: other completes, checked raises
+          fvar(["add", ["in", 5], ["in", 1]]),                          # 6 above total
+          fvar(["add", ["lastm", 3], ["in", 1]]),                       # 7 reads checked one month earlier
+          fvar(["sub", ["in", 3], ["in", 4]])]                          # 8 checked first
+    pop = rules.gen_pop(rng, 4)
+    n = len(pop["ids"])
+    y, mo = rng.choice([2019, 2020]), rng.randint(2, 12)
+    per = lambda j: ["month", [y, mo - j, 1], 1]  # noqa: E731
+    bad = lambda: [rng.choice([-1, -2.5, 3, 0, 7]) for _ in range(n)]  # noqa: E731
+    good = lambda: [rng.choice([1, 2.5, 3, 0, 7]) for _ in range(n)]  # noqa: E731
+    reqs = [["set", 0, per(j), bad() if rng.random() < 0.7 else good()] for j in range(2) if rng.random() < 0.9]
+    reqs += [["set", i, per(j), good()] for i in (1, 2) for j in range(2) if rng.random() < 0.8]
+    calcs = lambda c: [["calc", rng.choice([5, 5, 6, 7, 8, 3, 4]), per(0)] for _ in range(c)]  # noqa: E731
+    first = calcs(rng.randint(2, 3))
+    reqs += first
+    if rng.random() < 0.35:
+        reqs.insert(rng.randint(0, len(reqs)), ["clone"])
+    for r in rng.sample(first, min(2, len(first))):
+        reqs += [r, ["condset", 0, None, good()], r]
+        if rng.random() < 0.3:
+            reqs += [["condset", 0, None, good()], r]
+    reqs += calcs(rng.randint(1, 2))
+    cfg = {"trace": rng.random() < 0.5}
+    if rng.random() < 0.7:
+        cfg.update({"disk": True, "priority": [i for i in range(len(vs)) if rng.random() < 0.2],
+                    "drop": [i for i in range(3, len(vs)) if rng.random() < 0.15]})
+    return {"sys": {"float": True, "vars": vs, "params": [], "switches": [], "max_loops": 1}, "pop": pop,
+            "cfg": cfg, "requests": reqs, "mode": "float",
+            "inject": {"var": 3, "kind": "refused-input-value", "where": None, "target": None}, "fixvals": []}
+
+
 def generate(rng, tier):
     n_full, n_spiral = {"quick": (420, 60), "escalated": (1500, 200), "thorough": (3600, 400)}[tier]
     cases, counter = [], [rng.randrange(len(KINDS) * 3)]
@@ -545,6 +592,8 @@ def generate(rng, tier):
         cases.append(gen_deep_chain(k, trace=k % 2 == 0))
     for _ in range(n_spiral):
         cases.append(gen_float(rng))
+    for _ in range(n_spiral):
+        cases.append(gen_checked(rng))
     return cases
 
 
@@ -654,6 +703,18 @@ class Runner:
             if r[0] == "addvar":
                 self.add_variable(r[1])
                 return None
+            if r[0] == "clone":
+                # continue on a clone of the simulation (the wrappers live on the instance: re-installed)
+                wrapped = "calculate" in self.sim.__dict__
+                for name in ("calculate", "invalidate_cache_entry"):
+                    self.sim.__dict__.pop(name, None)
+                old = self.sim
+                self.sim = old.clone(trace=bool(old.trace))
+                self.old_dirs = getattr(self, "old_dirs", []) + [getattr(old, "_data_storage_dir", None)]
+                self.old_sims = getattr(self, "old_sims", []) + [old]
+                if wrapped:
+                    self._wrap()
+                return None
             if self.float:
                 return float_request(self.sim, r)
             return padded(self.pad, lambda: rules.do_request(self.sim, self.sys, self.switches, r))
@@ -677,9 +738,19 @@ class Runner:
         return entries
 
     def close(self):
-        d = getattr(self.sim, "_data_storage_dir", None)
-        if d:
-            shutil.rmtree(d, ignore_errors=True)
+        # the whole temporary directory is removed here: the per-holder clean-up of OnDiskStorage.__del__ is told not to
+        for population in self.sim.populations.values():
+            for holder in getattr(population, "_holders", {}).values():
+                if getattr(holder, "_disk_storage", None) is not None:
+                    holder._disk_storage.preserve_storage_dir = True
+        for sim in getattr(self, "old_sims", []):
+            for population in sim.populations.values():
+                for holder in getattr(population, "_holders", {}).values():
+                    if getattr(holder, "_disk_storage", None) is not None:
+                        holder._disk_storage.preserve_storage_dir = True
+        for d in [getattr(self.sim, "_data_storage_dir", None)] + getattr(self, "old_dirs", []):
+            if d:
+                shutil.rmtree(d, ignore_errors=True)
 
 
 def padded(k, f):
@@ -697,6 +768,11 @@ def fev(fx, person, period):
         return person(f"v{fx[1]}", period.last_month)
     if tag == "num":
         return numpy.float32(fx[1])
+    if tag == "check":
+        a = fev(fx[1], person, period)
+        if (a < 0).any():
+            raise ValueError("negative input refused")
+        return a
     a, b = fev(fx[1], person, period), fev(fx[2], person, period)
     with numpy.errstate(all="ignore"):
         return {"add": numpy.add, "sub": numpy.subtract, "mul": numpy.multiply, "div": numpy.divide}[tag](a, b)
@@ -731,7 +807,10 @@ def float_cache(sim, sys):
     for i in range(len(sys["vars"])):
         holder = sim.get_holder(f"v{i}")
         for p in holder.get_known_periods():
-            entries.append([[i] + rules.period_key(rules.period_json(p)), ftext(holder._memory_storage.get(p))])
+            arr = holder._memory_storage.get(p)
+            if arr is None and holder._disk_storage:
+                arr = holder._disk_storage.get(p)
+            entries.append([[i] + rules.period_key(rules.period_json(p)), ftext(arr)])
     entries.sort(key=lambda e: e[0])
     return entries
 
@@ -795,6 +874,7 @@ def _fresh_case(case, requests, switches, sys=None):
     c = dict(case)
     c["sys"] = dict(sys if sys is not None else case["sys"])
     c["sys"]["switches"] = sorted(switches)
+    c["cfg"] = {}          # the fresh simulation of the comparison is a default one (in memory, no tracer)
     c["requests"] = requests
     return c
 
@@ -818,6 +898,12 @@ def _run(case):
                 if not (steps and isinstance(steps[-1][0], Err)):
                     continue
                 r = ["set"] + r[1:]
+                if r[2] is None:
+                    where = [p for n, p in reversed(last_fired or []) if n == f"v{case['inject']['var']}"
+                             and hasattr(p, "unit")] if fired and fired[-1] is not None else []
+                    if not where:
+                        continue
+                    r[2] = rules.period_json(where[0])
             switches_before = set(main.switches)
             a = main.do(r)
             after = main.cache()
